@@ -146,3 +146,5 @@ func vSPCertBytes() []byte
 func vFormField(out []byte, element, nameAttr, valueAttr string) (string, bool, bool)
 func vFormCount(out []byte, tag string) int
 func vPostedDocumentSigned(b64doc string) bool
+
+func vContains(s, sub string) bool
